@@ -873,7 +873,12 @@ class CryptographyEngine(api.CryptographicEngine):
             )
         if auth_additional_data is not None:
             decryptor.authenticate_additional_data(auth_additional_data)
-        plain_text = decryptor.update(cipher_text) + decryptor.finalize()
+        try:
+            plain_text = decryptor.update(cipher_text) + decryptor.finalize()
+        except errors.InvalidTag:
+            raise exceptions.CryptographicFailure(
+                "The authentication tag does not match the cipher text."
+            )
 
         # Unpad the plain text if needed (separate methods for testing
         # purposes)
